@@ -62,6 +62,9 @@ FLAG_OFF_WITNESS = {'k': 'est', 'rounds': [1], 'h': False, 'c': False, 'reps': 2
 
 def gen_cases(rng, tier):
     cases = []
+    # one very large experiment: rounds 1..60 with heralding and calibration (cycle length 1896), 1 200 000 repetitions, i.e. indices
+    # beyond 2^31; queried for the 1-round block of an ancilla (short rows), see C12/Run.v CBig
+    cases.append({'k': 'big', 'rounds': list(range(1, 61)), 'h': True, 'c': True, 'reps': 1200000, 'data': [0, 1, 2], 'anc': [10, 11], 'q': 10, 'n': 1})
     top, maxlen = (6, 4) if tier == 'thorough' else (5, 3)
     for n in range(1, maxlen + 1):
         for rounds in itertools.permutations(range(top + 1), n):
@@ -114,6 +117,9 @@ def outcome(o):
 
 def to_coq(c, o):
     head = f"{lz(c['rounds'])} {cbool(c['h'])} {cbool(c['c'])} {cz(c['reps'])} {lz(c['data'])} {lz(c['anc'])}"
+    if c['k'] == 'big' and 'error' not in o:
+        rows = clist([f"({cz(i)}, {mat(r)})" for i, r in o['rows']])
+        return (f"(CBig {head} {cz(c['q'])} {cz(c['n'])} {cz(o['start'])} {cz(o['stop'])} {cz(o['L'])} {lz(o['nrows'])} {rows})")
     if c['k'] == 'est' and 'error' not in o:
         return f"(CEst {head} {cz(o['L'])} {lz(o['sizes'])} {clist([outcome(e) for e in o['ests']])})"
     if c['k'] == 'err' or 'error' in o:
@@ -132,12 +138,16 @@ def to_coq(c, o):
 
 
 def kind(c):
+    if c['k'] == 'big':
+        return 'big'
     if c['k'] == 'est':
         return f"est/c={'on' if c['c'] else 'off'}"
     return c['k'] if c['k'] == 'err' else f"exp/{c['qkind']}/len{min(len(c['rounds']), 4)}{'+' if len(c['rounds']) > 4 else ''}"
 
 
 def nontrivial(c, o):
+    if c['k'] == 'big':
+        return True
     if c['k'] == 'est':
         return len(c['rounds']) >= 2 or min(c['rounds']) <= 1
     return c['k'] == 'exp' and c['qkind'] != 'none' and (len(c['rounds']) >= 2 or min(c['rounds']) <= 1)
